@@ -1,1 +1,104 @@
-def main : IO Unit := IO.println "stub"
+import Nsq.Model.Line
+import Nsq.Model.MetaAccept
+/-! Driver for engine E5/meta (C06): one client-level operation per line in, one canonical answer out.
+The model is the tree WITH fixes/F6_persist_after_delete.patch (`fix = true`). -/
+open Nsq Nsq.Line Nsq.Model.FS Nsq.Model.Meta
+
+structure DS where
+  s : Sys B
+  lo : Nat          -- index in `s.hist` of the state of the last completed synchronous persist
+
+def fixOn : Bool := true
+
+def datDoc (s : Sys B) : Option Doc := s.fs.dat.map (·.1)
+
+def fileFlag (s : Sys B) (t : String) (c : Option String) : String :=
+  match datDoc s with
+  | none => "-"
+  | some d =>
+    match d.find? (·.name == t), c with
+    | none, _ => "-"
+    | some e, none => bit e.paused
+    | some e, some c => match e.chans.find? (·.name == c) with | none => "-" | some x => bit x.paused
+
+def fileGone (s : Sys B) (t : String) (c : Option String) : String :=
+  if fileFlag s t c == "-" then "1" else "0"
+
+def isSyncOp (w : List String) : Bool :=
+  match w with
+  | "pausetopic" :: _ => true | "pausechan" :: _ => true
+  | "deletetopic" :: _ => true | "deletechan" :: _ => true
+  | _ => false
+
+def answer (s : Sys B) (w : List String) (code : Nat) : String :=
+  if code != 200 then toString code else
+  match w with
+  | ["pausetopic", t, _] => s!"200 file={fileFlag s t none}"
+  | ["pausechan", t, c, _] => s!"200 file={fileFlag s t (some c)}"
+  | ["deletetopic", t] => s!"200 gone={fileGone s t none}"
+  | ["deletechan", t, c] => s!"200 gone={fileGone s t (some c)}"
+  | _ => "200"
+
+def stepLine (d : DS) (line : String) : DS × String :=
+  let w := words line
+  match w with
+  | ["start"] =>
+    if d.s.alive then (d, "bad-op") else
+    let s := runSteps fixOn d.s [.start]
+    ({ s := s, lo := s.hist.length - 1 }, if s.lastStart == .ok then "ok" else "startfail")
+  | ["second"] =>
+    let s := runSteps fixOn d.s [.start]
+    ({ d with s := s }, if s.lastStart == .locked then "refused" else "started")
+  | ["idle"] =>
+    let s := drain fixOn d.s
+    ({ s := s, lo := s.hist.length - 1 },
+     s!"dat={match datDoc s with | none => "absent" | some x => showDoc x} mem={showDoc (snap s.mem)}")
+  | "arm" :: _ => (d, "ok")
+  | "force" :: _ => (d, "ok")
+  | ["kill"] => ({ d with s := runSteps fixOn d.s [.kill] }, "ok")
+  | "dead" :: op =>
+    match opSteps d.s.mem op with
+    | none => (d, "bad-op")
+    | some (sts, _) => ({ d with s := runSteps fixOn (runSteps fixOn d.s sts) [.kill] }, "dead")
+  | "killduring" :: _ :: op =>
+    match opSteps d.s.mem op with
+    | none => (d, "bad-op")
+    | some (sts, _) => ({ d with s := runSteps fixOn (runSteps fixOn d.s sts) [.kill] }, "killed")
+  | ["restart", obs] =>
+    match parseDoc obs with
+    | none => (d, "bad-op")
+    | some o =>
+      if d.s.alive then (d, "bad-op") else
+      let window := d.s.hist.drop d.lo
+      if allowedIn window o then
+        let s0 := { d.s with fs := { d.s.fs with dat := some (toyCodec.marshal (canonDoc o)) } }
+        let s := runSteps fixOn s0 [.start]
+        ({ s := s, lo := s.hist.length - 1 }, "ok")
+      else (d, s!"bad: loaded state is not a cut of the {window.length} live states since the last synchronous persist")
+  | _ =>
+    if !d.s.alive then (d, "bad-op") else
+    match opSteps d.s.mem w with
+    | none => (d, "bad-op")
+    | some (sts, code) =>
+      let s1 := runSteps fixOn d.s sts
+      if isSyncOp w && code == 200 then
+        let s2 := drainHandlers fixOn (s1.handlers.length + 1) s1
+        ({ s := s2, lo := s2.hist.length - 1 }, answer s2 w code)
+      else ({ d with s := s1 }, answer s1 w code)
+
+partial def loop (h : IO.FS.Stream) (out : IO.FS.Stream) (d : DS) : IO Unit := do
+  let line ← h.getLine
+  if line.isEmpty then return ()
+  let l := line.dropRightWhile (· == '\n')
+  if l == "reset" then
+    out.putStrLn "ok"
+    loop h out { s := Sys.init, lo := 0 }
+  else
+    let (d', o) := stepLine d l
+    out.putStrLn o
+    loop h out d'
+
+def main : IO Unit := do
+  let out ← IO.getStdout
+  loop (← IO.getStdin) out { s := Sys.init, lo := 0 }
+  out.flush
